@@ -66,6 +66,7 @@ enum {
     F_SCRIPTED,         /* literal regression documents (D3 family) */
     F_ROOT_NOT_DESCENDED,
     F_CARELESS_CALLBACK, /* the callback ignored the depth-limit failure of traverse */
+    F_DEEP_SAME_NAME_CHAIN,
     F_NFLAGS
 };
 
@@ -1158,6 +1159,148 @@ static bool run_case(uint64_t c) {
     return true;
 }
 
+/* ------------------------------------------------------------------ a long chain of same-named elements that is skipped or read
+ * Skipping an element or reading its body scans for the end tag that matches it while counting the elements of the same name
+ * that are still open; nothing bounds how many there are (the depth limit only applies to what the callback descends into,
+ * and options.max_depth can be raised). Document:  <r><h>H</h> N x <a> x N x </a> <t>T</t></r>  with 30..1100 nested
+ * elements, some written with attributes and a few '<ab>' elements in between; the callback descends L levels into the chain,
+ * then skips or reads the body, whose extent is known by construction; <t> must still be reported and the parse succeed. */
+struct deep_state {
+    size_t n, descend, seen_chain;
+    bool body, acted, tail_seen, bad;
+    const char *doc;
+    size_t body_off, body_len; /* of the element at chain level `descend` */
+    size_t max_depth;
+};
+
+static int deep_on_node(struct aws_xml_node *node, void *ud) {
+    struct deep_state *d = ud;
+    struct aws_byte_cursor nm = aws_xml_node_get_name(node);
+    if (aws_byte_cursor_eq_c_str(&nm, "r")) {
+        return aws_xml_node_traverse(node, deep_on_node, d);
+    }
+    if (aws_byte_cursor_eq_c_str(&nm, "h")) {
+        return AWS_OP_SUCCESS;
+    }
+    if (aws_byte_cursor_eq_c_str(&nm, "t")) {
+        struct aws_byte_cursor b;
+        if (d->tail_seen || !d->acted || aws_xml_node_as_body(node, &b) || !aws_byte_cursor_eq_c_str(&b, "T")) {
+            d->bad = true;
+            mon_violation("C12:deep-chain:sibling", "chain of %zu same-named elements, %s at level %zu: the following sibling <t> was reported %s",
+                          d->n, d->body ? "body read" : "skipped", d->descend, d->tail_seen ? "twice" : !d->acted ? "before the chain" : "with a wrong body");
+        }
+        d->tail_seen = true;
+        return AWS_OP_SUCCESS;
+    }
+    if (aws_byte_cursor_eq_c_str(&nm, "ab")) {
+        /* its text is the chain level of its parent (-1: child of <r>): legitimate only as a child of a descended element */
+        struct aws_byte_cursor b;
+        long parent = -2;
+        if (aws_xml_node_as_body(node, &b) == AWS_OP_SUCCESS && b.len > 0 && b.len < 12) {
+            char t[16];
+            memcpy(t, b.ptr, b.len);
+            t[b.len] = 0;
+            parent = strtol(t, NULL, 10);
+        }
+        if (parent < -1 || parent >= (long)d->descend) {
+            d->bad = true;
+            mon_violation("C12:deep-chain:reported-inside-skipped", "chain of %zu same-named elements, %s at level %zu: an <ab> child of chain level %ld was reported",
+                          d->n, d->body ? "body read" : "skipped", d->descend, parent);
+        }
+        return AWS_OP_SUCCESS;
+    }
+    if (d->acted) {
+        d->bad = true;
+        mon_violation("C12:deep-chain:reported-inside-skipped", "chain of %zu same-named elements, %s at level %zu: element '%.*s' inside it was reported afterwards",
+                      d->n, d->body ? "body read" : "skipped", d->descend, (int)nm.len, (const char *)nm.ptr);
+        return AWS_OP_SUCCESS;
+    }
+    if (d->seen_chain < d->descend) {
+        ++d->seen_chain;
+        return aws_xml_node_traverse(node, deep_on_node, d);
+    }
+    d->acted = true;
+    if (d->body) {
+        struct aws_byte_cursor b;
+        if (aws_xml_node_as_body(node, &b)) {
+            d->bad = true;
+            mon_violation("C12:deep-chain:body-failed", "chain of %zu same-named elements: aws_xml_node_as_body at level %zu failed (%s)", d->n, d->descend,
+                          aws_error_name(aws_last_error()));
+            return AWS_OP_ERR;
+        }
+        if (b.len != d->body_len || b.ptr != (const uint8_t *)d->doc + d->body_off) {
+            d->bad = true;
+            mon_violation("C12:deep-chain:body", "chain of %zu same-named elements: body of the element at level %zu is %zu bytes at offset %td, expected %zu bytes at offset %zu",
+                          d->n, d->descend, b.len, b.ptr ? (const char *)b.ptr - d->doc : (ptrdiff_t)-1, d->body_len, d->body_off);
+        }
+    }
+    return AWS_OP_SUCCESS; /* not descended into: skipped */
+}
+
+static void deep_chain_case(void) {
+    struct mon_rng *r = &mon_case_rng;
+    static const size_t NN[] = {30, 100, 200, 254, 255, 256, 257, 258, 300, 511, 512, 513, 700, 1100};
+    struct deep_state d;
+    memset(&d, 0, sizeof(d));
+    d.n = NN[mon_below(r, sizeof(NN) / sizeof(NN[0]))];
+    d.body = mon_chance(r, 1, 2);
+    /* how far the callback descends: the top of the chain is at depth 2; stay two inside the limit like every other positive */
+    bool raise = mon_chance(r, 1, 2);
+    d.max_depth = raise ? d.n + 8 : 0;
+    size_t lim = (raise ? d.max_depth : DEFAULT_MAX_DEPTH) - 4;
+    size_t maxl = d.n - 1 < lim ? d.n - 1 : lim;
+    d.descend = mon_chance(r, 1, 3) ? 0 : (size_t)mon_below(r, maxl + 1);
+    bool with_ab = mon_chance(r, 1, 2);
+    size_t cap = d.n * 48 + 256, o = 0;
+    char *doc = malloc(cap);
+    size_t *open_end = malloc(sizeof(size_t) * (d.n + 1)), *close_start = malloc(sizeof(size_t) * (d.n + 1));
+    o += (size_t)sprintf(doc + o, "<r><h>H</h>");
+    for (size_t i = 0; i < d.n; ++i) {
+        if (with_ab && i % 7 == 3) {
+            o += (size_t)sprintf(doc + o, "<ab>%ld</ab>", (long)i - 1);
+        }
+        o += (size_t)sprintf(doc + o, i % 5 == 2 ? "<a k=\"%zu\">" : "<a>", i);
+        open_end[i] = o;
+    }
+    o += (size_t)sprintf(doc + o, "x");
+    for (size_t i = d.n; i-- > 0;) {
+        close_start[i] = o;
+        o += (size_t)sprintf(doc + o, "</a>");
+        if (with_ab && i % 11 == 5) {
+            o += (size_t)sprintf(doc + o, "<ab>%ld</ab>", (long)i - 1);
+        }
+    }
+    o += (size_t)sprintf(doc + o, "<t>T</t></r>");
+    d.doc = doc;
+    d.body_off = open_end[d.descend];
+    d.body_len = close_start[d.descend] - open_end[d.descend];
+    mon_fp(0xDEE9 + d.n * 4 + (d.body ? 1 : 0) + (raise ? 2 : 0));
+    struct aws_xml_parser_options opt;
+    AWS_ZERO_STRUCT(opt);
+    opt.doc = aws_byte_cursor_from_array(doc, o);
+    opt.max_depth = d.max_depth;
+    opt.on_root_encountered = deep_on_node;
+    opt.user_data = &d;
+    mon_poison_last_error(r);
+    int rc = aws_xml_parse(mon_guard_allocator(), &opt);
+    if (!d.bad) {
+        if (rc != AWS_OP_SUCCESS) {
+            mon_violation("C12:deep-chain:rejected", "well-formed document with a chain of %zu same-named elements (%s at level %zu, options.max_depth=%zu) was rejected: %s",
+                          d.n, d.body ? "body read" : "skipped", d.descend, d.max_depth, aws_error_name(aws_last_error()));
+        } else if (!d.acted || !d.tail_seen) {
+            mon_violation("C12:deep-chain:sibling", "chain of %zu same-named elements, %s at level %zu (options.max_depth=%zu): aws_xml_parse succeeded but %s was never reported",
+                          d.n, d.body ? "body read" : "skipped", d.descend, d.max_depth, d.acted ? "the following sibling <t>" : "the chain element");
+        }
+    }
+    free(doc);
+    free(open_end);
+    free(close_start);
+    mon_flag(F_DEEP_SAME_NAME_CHAIN);
+    if (d.n >= 256) {
+        mon_count("same_name_chains_of_256_or_more_skipped_or_read", 1);
+    }
+}
+
 int main(int argc, char **argv) {
     mon_init(argc, argv, "C12");
     aws_common_library_init(aws_default_allocator());
@@ -1191,6 +1334,7 @@ int main(int argc, char **argv) {
         "scripted_regression_document",
         "root_read_as_body_or_skipped",
         "callback_ignored_depth_limit_failure",
+        "long_same_name_chain_skipped_or_read",
     };
     for (int i = 0; i < F_NFLAGS; ++i) {
         mon_flag_name(i, names[i]);
@@ -1198,6 +1342,11 @@ int main(int argc, char **argv) {
     uint64_t c;
     while (mon_next_case(&c)) {
         mon_case_begin(c);
+        if (c >= (uint64_t)NSCRIPT && c % 64 == 63) {
+            deep_chain_case();
+            mon_case_end(true);
+            continue;
+        }
         bool nontrivial = run_case(c);
         mon_case_end(nontrivial);
     }
